@@ -122,6 +122,33 @@ def run_cg(jobs):
         shutil.rmtree(d, ignore_errors=True)
 
 
+NAME_POOLS = [['draw', 'draw_sprite', 'sprite_init', 'init', 'sprite'],
+              ['go', 'go_to', 'to_end', 'end', 'to'],
+              ['a_b', 'a_b_c', 'b_c', 'c_x', 'a_', '_c_x'],
+              ['f1', 'f11', 'f1_1', 'f_1', 'f', 'f1_f1'],
+              ['main_loop', 'loop', 'main_', 'main2', 'mainloop']]
+
+
+def graph_program(rng):
+    """call graphs over function names that share prefixes, suffixes and underscores (identifier text
+    must never be confused: two different caller/callee pairs may concatenate to the same text)"""
+    names = list(rng.choice(NAME_POOLS))
+    rng.shuffle(names)
+    names = names[:rng.randrange(3, len(names) + 1)]
+    g = {}
+    L = ['unsigned char v;'] + ['void %s();' % f for f in names]
+    for k, f in enumerate(names):
+        callees = [c for c in names if c != f and rng.random() < 0.4]
+        if rng.random() < 0.2 and callees:
+            callees.append(rng.choice(callees))
+        g[f] = callees
+        L.append('void %s() { v++; %s }' % (f, ' '.join('%s();' % c for c in callees)))
+    mc = [c for c in names if rng.random() < 0.5] or [names[-1]]
+    g['main'] = mc
+    L.append('void main() { %s }' % ' '.join('%s();' % c for c in mc))
+    return '\n'.join(L) + '\n', g
+
+
 def run(ctx):
     quick = ctx.tier == 'quick'
     rng = ctx.rng
@@ -132,6 +159,10 @@ def run(ctx):
         progs['p%d' % i] = gen_program(rng, dict(calls=True, inline=(i % 2 == 0), max_stmts=8))
     srcs = {k: p.source() for k, p in progs.items()}
     graphs = {k: (source_graph(p), ['main']) for k, p in progs.items()}
+    for i in range(400 if quick else 8000):
+        src, g = graph_program(rng)
+        srcs['g%d' % i] = src
+        graphs['g%d' % i] = (g, ['main'])
     srcs.update(FIXED)
     graphs.update(FIXED_GRAPH)
     viol = []
